@@ -162,6 +162,10 @@ class Proto(Expr):
             raise TealInputError(
                 f"The number of returns provided to Proto must be >= 0 but {num_returns=}."
             )
+        if num_args > 255 or num_returns > 255:
+            raise TealInputError(
+                f"The immediates of proto must be <= 255 but {num_args=} and {num_returns=}."
+            )
         self.num_args = num_args
         self.num_returns = num_returns
 
@@ -216,6 +220,10 @@ class FrameDig(Expr):
 
     def __init__(self, frame_index: int, *, inferred_type: Optional[TealType] = None):
         super().__init__()
+        if frame_index < -128 or frame_index > 127:
+            raise TealInputError(
+                f"frame_dig index must be in [-128, 127] but {frame_index=}."
+            )
         self.frame_index = frame_index
         self.dig_type = inferred_type if inferred_type else TealType.anytype
 
@@ -259,6 +267,10 @@ class FrameBury(Expr):
 
         target_type: TealType = inferred_type or TealType.anytype
         require_type(value, target_type)
+        if frame_index < -128 or frame_index > 127:
+            raise TealInputError(
+                f"frame_bury index must be in [-128, 127] but {frame_index=}."
+            )
 
         self.value = value
         self.frame_index = frame_index
@@ -337,6 +349,8 @@ class DupN(Expr):
         require_type(value, TealType.anytype)
         if repetition < 0:
             raise TealInputError("dupn repetition should be non negative")
+        if repetition > 255:
+            raise TealInputError("dupn repetition should be at most 255")
         self.value = value
         self.repetition = repetition
 
